@@ -44,6 +44,9 @@ class Build:
         return self.bins
 
     def cleanup(self):
+        if os.environ.get('VERIF_KEEP'):
+            print('kept build dir', self.dir)
+            return
         shutil.rmtree(self.dir, ignore_errors=True)
         try:
             os.rmdir(os.path.join(VERIF, '.build'))
@@ -268,7 +271,7 @@ def mechanical_violations(prop, clog, witness_fn):
             continue
         call = ''
         m = re.search(r'call=(\S+)', det)
-        if m and not re.search(r'@\w+$', key):
+        if m and not re.search(r'@\w+$', key) and key.startswith(('crash/', 'guard/', 'stack-overflow', 'hang', 'sanitizer/', 'ledger/', 'hooks/', 'borrowed')):
             call = '@' + m.group(1)
         out.append(Violation(prop, key + call, det[:600], witness_fn(clog, idx)))
     return out
@@ -429,9 +432,10 @@ def run_batch(binary, flavour, cases, workdir, tag, thorough=False):
     try:
         logs = run_driver(binary, cpath, lpath, thorough)
     finally:
-        for p in (cpath, lpath, lpath + '.stderr'):
-            if os.path.exists(p):
-                os.unlink(p)
+        if not os.environ.get('VERIF_KEEP'):
+            for p in (cpath, lpath, lpath + '.stderr'):
+                if os.path.exists(p):
+                    os.unlink(p)
     missing = [c[0] for c in cases if c[0] not in logs]
     if missing:
         raise HarnessFailure('cases without log records: %s' % missing[:5])
